@@ -29,12 +29,15 @@ type pathInfo struct {
 	kill     []uint64 // per block: atoms whose condition value is defined in the block
 	addMemo  map[litKey][]uint64
 	depth    int
+	// selector atoms: for a phi that is branched on in another block than the one defining it,
+	// one bit per operand records through which edge the path entered the phi's block
+	sel map[*ssa.Phi][]uint64
 }
 
 func (pi *pathInfo) predMask(m uint64) uint32 {
 	var r uint32
 	for i, pidx := range pi.atomPred {
-		if m&(1<<uint(i)) != 0 {
+		if pidx >= 0 && m&(1<<uint(i)) != 0 {
 			r |= 1 << uint(pidx)
 		}
 	}
@@ -44,7 +47,7 @@ func (pi *pathInfo) predMask(m uint64) uint32 {
 func (pi *pathInfo) atomBits(l Lit) uint64 {
 	var bits uint64
 	for i := range pi.atomPred {
-		if pi.atomVal[i] == l.V && pi.preds[pi.atomPred[i]](l) {
+		if pi.atomPred[i] >= 0 && pi.atomVal[i] == l.V && pi.preds[pi.atomPred[i]](l) {
 			bits |= 1 << uint(i)
 		}
 	}
@@ -272,7 +275,7 @@ func (pi *pathInfo) edgeAdds(p *Prog, l Lit) []uint64 {
 	for _, pm := range p.litMasks(l, pi.preds, pi.depth) {
 		var bits uint64
 		for i := range pi.atomPred {
-			if pi.atomVal[i] == l.V && pm&(1<<uint(pi.atomPred[i])) != 0 {
+			if pi.atomPred[i] >= 0 && pi.atomVal[i] == l.V && pm&(1<<uint(pi.atomPred[i])) != 0 {
 				bits |= 1 << uint(i)
 			}
 		}
@@ -355,6 +358,61 @@ func (p *Prog) pathMasksD(fn *ssa.Function, preds []Pred, depth int) *pathInfo {
 			}
 		}
 	}
+	// selector atoms for phis branched on outside their defining block
+	pi.sel = map[*ssa.Phi][]uint64{}
+	for _, b := range fn.Blocks {
+		n := len(b.Instrs)
+		if n == 0 {
+			continue
+		}
+		iff, ok := b.Instrs[n-1].(*ssa.If)
+		if !ok {
+			continue
+		}
+		v, _ := stripNot(iff.Cond, true)
+		ph := subjectPhi(Lit{V: v, Pos: true})
+		if ph == nil || ph.Block() == b || pi.sel[ph] != nil || len(ph.Edges) > 4 {
+			continue
+		}
+		if len(pi.atomPred)+len(ph.Edges) >= 61 {
+			continue
+		}
+		// only worth it if some predicate cares about a literal on one of the operands
+		var bits []uint64
+		for range ph.Edges {
+			bits = append(bits, uint64(1)<<uint(len(pi.atomPred)))
+			pi.atomPred = append(pi.atomPred, -1)
+			pi.atomVal = append(pi.atomVal, ph)
+		}
+		pi.sel[ph] = bits
+		for _, e := range ph.Edges {
+			if _, isC := e.(*ssa.Const); isC {
+				continue
+			}
+			l0, ok0 := operandLit(Lit{V: v, Pos: true}, ph, e)
+			l1, ok1 := operandLit(Lit{V: v, Pos: false}, ph, e)
+			if ok0 && ok1 && !seenCond[l0.V] {
+				seenCond[l0.V] = true
+				// register atoms for the operand literals
+				var any uint32
+				for _, l := range []Lit{l0, l1} {
+					for _, pm := range p.litMasks(l, preds, depth) {
+						any |= pm
+					}
+				}
+				for i := range preds {
+					if any&(1<<uint(i)) != 0 && len(pi.atomPred) < 61 {
+						bit := uint64(1) << uint(len(pi.atomPred))
+						pi.atomPred = append(pi.atomPred, i)
+						pi.atomVal = append(pi.atomVal, l0.V)
+						if in, ok := l0.V.(ssa.Instruction); ok && in.Block() != nil {
+							pi.kill[in.Block().Index] |= bit
+						}
+					}
+				}
+			}
+		}
+	}
 	pi.in[0][0] = true
 	work := []*ssa.BasicBlock{fn.Blocks[0]}
 	inWork := map[*ssa.BasicBlock]bool{fn.Blocks[0]: true}
@@ -407,6 +465,40 @@ func (p *Prog) pathMasksD(fn *ssa.Function, preds []Pred, depth int) *pathInfo {
 					}
 				}
 			}
+			// selector atoms of the phis defined in s
+			var selClear, selSet uint64
+			for _, in := range s.Instrs {
+				ph, isPhi := in.(*ssa.Phi)
+				if !isPhi {
+					break
+				}
+				if bits := pi.sel[ph]; bits != nil {
+					pidx := -1
+					for i, pr := range s.Preds {
+						if pr == b {
+							if pidx >= 0 {
+								pidx = -2
+								break
+							}
+							pidx = i
+						}
+					}
+					for _, bt := range bits {
+						selClear |= bt
+					}
+					if pidx >= 0 && pidx < len(bits) {
+						selSet |= bits[pidx]
+					}
+				}
+			}
+			// a literal about a phi with selector atoms is resolved per path
+			var selPhi *ssa.Phi
+			var selLit Lit
+			if l, ok := edgeLit(b, s); ok {
+				if ph := subjectPhi(l); ph != nil && pi.sel[ph] != nil {
+					selPhi, selLit = ph, l
+				}
+			}
 			for m := range pi.in[b.Index] {
 				if m&noExit == noExit {
 					continue
@@ -418,6 +510,26 @@ func (p *Prog) pathMasksD(fn *ssa.Function, preds []Pred, depth int) *pathInfo {
 					continue
 				}
 				m &^= noExit
+				adds := adds
+				if selPhi != nil {
+					for i, bt := range pi.sel[selPhi] {
+						if m&bt == 0 {
+							continue
+						}
+						e := selPhi.Edges[i]
+						if feasible, decided := constLit(selLit, selPhi, e); decided {
+							if !feasible {
+								adds = nil
+							} else {
+								adds = []uint64{0}
+							}
+						} else if ol, ok := operandLit(selLit, selPhi, e); ok {
+							adds = pi.edgeAdds(p, ol)
+						}
+						break
+					}
+				}
+				m = (m &^ selClear) | selSet
 				for _, add := range adds {
 					nm := (m &^ pi.kill[b.Index]) | add
 					if pb == nil {
@@ -957,6 +1069,56 @@ func knownNilOnEdge(blk *ssa.BasicBlock, e ssa.Value) (bool, bool) {
 			}
 		}
 		blk = pp
+	}
+	return false, false
+}
+
+// subjectPhi: the phi a literal is about: `phi`, `!phi`, `phi == nil`, `phi != nil`.
+func subjectPhi(l Lit) *ssa.Phi {
+	if x, _, ok := nilTest(l); ok {
+		if ph, isPhi := x.(*ssa.Phi); isPhi {
+			return ph
+		}
+		return nil
+	}
+	if l.Nil {
+		return nil
+	}
+	if ph, isPhi := l.V.(*ssa.Phi); isPhi {
+		if bt, okb := ph.Type().Underlying().(*types.Basic); okb && bt.Kind() == types.Bool {
+			return ph
+		}
+	}
+	return nil
+}
+
+// operandLit: literal l about phi ph, restated about operand e of ph.
+func operandLit(l Lit, ph *ssa.Phi, e ssa.Value) (Lit, bool) {
+	if x, isNil, ok := nilTest(l); ok && x == ssa.Value(ph) {
+		return Lit{V: e, Nil: true, Pos: isNil}, true
+	}
+	if l.V == ssa.Value(ph) && !l.Nil {
+		v, pos := stripNot(e, l.Pos)
+		return Lit{V: v, Pos: pos}, true
+	}
+	return Lit{}, false
+}
+
+// constLit: operand e is a constant (or a never-nil error): is literal l about ph satisfiable?
+func constLit(l Lit, ph *ssa.Phi, e ssa.Value) (feasible, decided bool) {
+	if x, isNil, ok := nilTest(l); ok && x == ssa.Value(ph) {
+		if c, isC := e.(*ssa.Const); isC {
+			return c.IsNil() == isNil, true
+		}
+		if isErrorType(e.Type()) && neverNilErr(e, 2) {
+			return !isNil, true
+		}
+		return false, false
+	}
+	if l.V == ssa.Value(ph) && !l.Nil {
+		if c, isC := e.(*ssa.Const); isC && c.Value != nil && c.Value.Kind() == constant.Bool {
+			return constant.BoolVal(c.Value) == l.Pos, true
+		}
 	}
 	return false, false
 }
